@@ -63,6 +63,16 @@ def ctrl(u):
     return m
 
 
+def ctrl_value(u, nc, value):
+    """Gate docstring, `control_value`: "the decimal value of controlling bits for executing the unitary operator on
+    the target qubits ... if the gate should be executed when the two bits are 1 and 0, control_value=2" — the
+    `nc` controls come first (most significant), `u` acts on the targets iff the control bits spell `value`."""
+    k = u.shape[0]
+    m = np.eye((2 ** nc) * k, dtype=complex)
+    m[value * k:(value + 1) * k, value * k:(value + 1) * k] = u
+    return m
+
+
 def _perm(n, swaps):
     m = np.eye(n, dtype=complex)
     for a, b in swaps:
